@@ -344,6 +344,33 @@ Section Analysis.
         && negb (N.eqb send 0) && negb (N.eqb take 0) && negb (N.eqb mu 0)
     | _ => false
     end.
+  (* ---- C20: message objects are serialized only under the handler mutex ---- *)
+
+  (* [fname] is reached, in every goroutine role that reaches it at all, only with mutex [mu] held
+     exclusively (through all call paths), and some role does reach it.  Used for
+     DefaultHandler.send: ToBytes writes the message object (body length, checksum, prepared
+     bytes), and stored message objects are shared between application senders and the
+     ResendRequest service, so every path into send must hold DefaultHandler.mu. *)
+  Definition guarded_by (fname mu : string) : bool :=
+    let sm := summaries in
+    let f := nid nm fname in
+    let m := nid nm mu in
+    negb (N.eqb f 0) && negb (N.eqb m 0)
+    && forallb (fun r => match assoc_n (entry_locks sm r) f with
+                         | Some h => match held_lookup h m with Some true => true | _ => false end
+                         | None => true
+                         end) all_roles
+    && existsb (fun r => match assoc_n (entry_locks sm r) f with Some _ => true | None => false end) all_roles.
+
+  Definition unguarded_roles (fname mu : string) : list string :=
+    let sm := summaries in
+    let f := nid nm fname in
+    let m := nid nm mu in
+    flat_map (fun r => match assoc_n (entry_locks sm r) f with
+                       | Some h => match held_lookup h m with Some true => [] | _ => [nstr nm (r_name r)] end
+                       | None => []
+                       end) all_roles.
+
 End Analysis.
 
 (* ------------------------------------------------------------------------------------------ *)
